@@ -7,6 +7,7 @@ import (
 	_ "verif/props/c06"
 	_ "verif/props/c07"
 	_ "verif/props/c14"
+	_ "verif/props/c16"
 	_ "verif/props/selftest"
 )
 
